@@ -20,7 +20,7 @@ RULE = ("(a) generated IR programs traced on the recorder, then their interface-
         "witness satisfies the decoded constraints whenever the recorder's witness satisfies the recorder's. Plus deterministic large traces (1 to 1025 [thorough: 10001] constraints, sizes around byte and power-of-two "
         "boundaries, late public values). Non-trivial "
         "= >= 1 public, >= 1 private, >= 1 constraint and a value outside [0,p); distinct by trace digest.")
-RULE += " Extensions (seeded rounds 10-15): 12000 and 40001 constraints, a second prove() over same-shaped stale files, a failed prove() (output name taken by a directory) between two valid ones."
+RULE += " Extensions (seeded rounds 10-15): 12000 and 40001 constraints, a second prove() over same-shaped stale files, a failed prove() (output name taken by a directory) between two valid ones. Coefficient sweep: every coefficient k, -k, p-k, p+k for k = 1..10001 (thorough 70001) and around the powers of two and ten above, on a wire and on the constant."
 
 P = backends.FIELDS["snarkjs"]
 
